@@ -1715,6 +1715,10 @@ class PseudoNetCDFFile(PseudoNetCDFSelfReg, object):
                     dvar = np.arange(len(dv))
                 if isinstance(df, str):
                     newdl = getattr(dvar[...], df)(keepdims=True).size
+                elif isinstance(df, dict):
+                    # the documented dictionary form: func1d and its keywords
+                    dfkw = dict(df)
+                    newdl = dfkw.pop('func1d')(dvar[:], **dfkw).size
                 else:
                     newdl = df(dvar[:]).size
             else:
@@ -1751,7 +1755,7 @@ class PseudoNetCDFFile(PseudoNetCDFSelfReg, object):
                         newvals = getattr(newvals, dfunc)(
                             axis=di, keepdims=True)
                     else:
-                        newvals = np.apply_along_axis(dfunc, di, newvals)
+                        newvals = np.apply_along_axis(**opts)
             newvaro = outf.copyVariable(varo, key=vark, withdata=False)
             newvaro[...] = newvals
         if verbose > 0:
